@@ -155,15 +155,25 @@ func runC04(s *sim) {
 	w.atEnd = append(w.atEnd, func() {
 		// drain: release every parked validation (several rounds: chains of validators), let
 		// time-outs fire, then judge every message
-		for round := 0; round < 64; round++ {
+		// (with one worker and inline validators a single gate is parked at a time, so the number
+		// of rounds is the number of validator calls still to come: bounded by the work, not by a
+		// constant -- a constant of 64 left a backlog unjudged and raised a false alarm once in a
+		// million runs, see DESIGN 0.5)
+		drained := false
+		for round := 0; round < 8192; round++ {
 			g := s.parkedGates()
 			if len(g) == 0 {
+				drained = true
 				break
 			}
 			for _, x := range g {
 				s.release(x, 0)
 				s.settle()
 			}
+		}
+		if !drained {
+			s.probe("drain_incomplete_not_judged")
+			return
 		}
 		s.advance(50 * time.Millisecond)
 		s.settle()
@@ -410,6 +420,12 @@ func runC04(s *sim) {
 				}
 				if len(per) > 1 {
 					s.probe("reject_with_several_forwarders")
+				}
+				if debugState && s.keepLog {
+					s.logf("DEBUG c04 reject mid %x copies %d qfull %v per %v ran %v reasons %v touched %v", sh, len(copies[mid]), len(qfull[mid]), len(per), ran, reasons[mid], touched)
+					for _, c := range copies[mid] {
+						s.logf("DEBUG   copy from %s at %v steady %v", w.fakeByID(c.from).name, c.t, steady[c.from])
+					}
 				}
 				for id, n := range per {
 					k := string(id) + "|" + topic
